@@ -11,6 +11,7 @@
      iv= betti= bn= pbn= diag=   the read-outs as functions of the C++ pair list (Gallina definitions) *)
 let cells : cell list ref = ref []
 let ok = ref false
+let sw = ref false      (* order of endpoints(): false on a Simplex_tree, true on a Hasse / cubical complex *)
 let memo : (int, (nat * nat option) list option) Hashtbl.t = Hashtbl.create 16
 let zs = string_of_z
 let nat_s n = string_of_int (int_of_nat n)
@@ -24,6 +25,17 @@ let parse_order s =
     match String.split_on_char ':' item with
     | [vs; f] -> (List.map z_of_string (String.split_on_char ',' vs), z_of_string f)
     | _ -> failwith "bad simplex") (String.split_on_char ';' s)
+
+(* cubical complexes: <dim>/<facet positions>/<value>;... *)
+let parse_cells s =
+  if s = "-" then [] else
+  List.map (fun item ->
+    match String.split_on_char '/' item with
+    | [d; fs; f] ->
+      { c_dim = nat_of_int (int_of_string d);
+        c_faces = (if fs = "-" then [] else List.map (fun x -> nat_of_int (int_of_string x)) (String.split_on_char ',' fs));
+        c_val = z_of_string f }
+    | _ -> failwith "bad cell") (String.split_on_char ';' s)
 
 let parse_pairs s : ((nat * nat option) * z) list =
   if s = "-" || s = "" then [] else
@@ -53,7 +65,7 @@ let run_line multi a b flag m cpp =
   let primes = if multi then List.map int_of_z (primes_between (z_of_int a) (z_of_int b)) else [a] in
   let fo = if multi then mf_ops (List.map z_of_int primes) else zp_ops (z_of_int a) in
   let dim_max = dim_max_of !cells flag in
-  let mp = pcoh fo !cells flag m in
+  let mp = pcoh_gen !sw fo !cells flag m in
   (* specification *)
   let per_q = List.map (fun q -> (q, (match oracle q with
                                        | Some l -> Some (List.filter (keep_pair !cells dim_max m) l) | None -> None))) primes in
@@ -87,9 +99,13 @@ let () =
     (try
       match words line with
       | [] -> emit "empty"
-      | ["K"; o] ->
+      | [k; o] when k = "K" || k = "KH" || k = "KC" ->
         Hashtbl.reset memo;
-        (match cells_of (parse_order o) with
+        sw := (k <> "K");
+        let parsed = if k = "KC" then Some (parse_cells o) else cells_of (parse_order o) in
+        (match parsed with
+         | Some c when not (valid_b c) -> cells := []; ok := false; emit "notvalid"
+         | Some c when not (dd_zero c) -> cells := []; ok := false; emit "notchain"
          | Some c -> cells := c; ok := true;
            emit (Printf.sprintf "ok n=%d dim=%s" (List.length c) (zs (complex_dim c)))
          | None -> cells := []; ok := false; emit "notacomplex")
